@@ -131,13 +131,15 @@ def _scratch_dir_with_distinct_job_ids(names):
 
 
 def e2e(argv_tail, files: dict[str, list[dict]], want_files=(), keep_dir=False, post=None, out_name="out.json",
-        in_dir=None, capture_log=False):
+        in_dir=None, capture_log=False, input_glob=None):
     """Run the real Acelyzer API in-process.  `files`: name -> list of input events (written as
     {"traceEvents": [...]}).  Returns dict(rc, error, events, other, outdir-files requested).
     `post(ace)`: optional callback evaluated after a run that did not raise (e.g.
     `lambda ace: ace.get_output_data()`); its value is returned as res["post"].
     `out_name`: basename given to `-o`.  `in_dir`: run in this existing directory (never removed here)
-    instead of a fresh temporary one, so that two runs see identical input paths."""
+    instead of a fresh temporary one, so that two runs see identical input paths.
+    `input_glob`: name the input files by this ONE wildcard pattern (relative to the scratch directory) instead
+    of a comma-separated list."""
     import aiu_trace_analyzer.logger as aiulog
     from aiu_trace_analyzer.core.acelyzer import Acelyzer
 
@@ -160,7 +162,8 @@ def e2e(argv_tail, files: dict[str, list[dict]], want_files=(), keep_dir=False, 
             saved_level = aiulog.loglevel
             try:
                 with contextlib.redirect_stdout(logbuf):
-                    ace = Acelyzer(["-i", ",".join(paths), "-o", out, "-D", "0", *argv_tail])
+                    inp = os.path.join(tmp, input_glob) if input_glob else ",".join(paths)
+                    ace = Acelyzer(["-i", inp, "-o", out, "-D", "0", *argv_tail])
                     # capture_log: the INFO lines of the run (statistics printed at drain) are returned as res["log"]
                     aiulog.loglevel = aiulog.INFO if capture_log else -1
                     res["rc"] = ace.run()
